@@ -3,6 +3,7 @@
 from __future__ import annotations
 
 import ast
+import hashlib
 import json
 import os
 from dataclasses import dataclass
@@ -61,6 +62,7 @@ class ModuleInfo:
     classes: dict[str, ClassInfo] = field(default_factory=dict)
     functions: dict[str, ast.FunctionDef] = field(default_factory=dict)
     assigns: dict[str, ast.AST] = field(default_factory=dict)  # module-level NAME = value
+    quiet: list | None = None  # canon.quiet_collect of the tree (kept across overlays)
 
     def __repr__(self) -> str:
         return f"<module {self.relpath}>"
@@ -132,6 +134,14 @@ _REFNAMES: dict | None = None
 NORMALISED: list[str] = []  # what the local normalisation did in this process (reported in the evidence)
 
 
+def _reference_digest(rel: str) -> str | None:
+    global _REFNAMES
+    if _REFNAMES is None:
+        path = Path(__file__).with_name("refnames.json")
+        _REFNAMES = json.loads(path.read_text()) if path.exists() else {}
+    return _REFNAMES.get(f"#digest:{rel}")
+
+
 def _normalise_locals(rel: str, tree: ast.Module) -> None:
     """Map locals renamed / extracted w.r.t. the reference tree back to the reference shape (see gv.canon)."""
     global _REFNAMES
@@ -170,6 +180,7 @@ class Index:
     def __init__(self, root: Path | None = None, overlay: dict[str, str] | None = None, _base: "Index | None" = None):
         self.root = (root or repo_root()) / "src" / "gemseo"
         self.modules: dict[str, ModuleInfo] = {}
+        self._fresh: list = []
         self._by_modname: dict[str, ModuleInfo] = {}
         self._classes_by_name: dict[str, list[ClassInfo]] = {}
         self._mro_cache: dict[str, list[ClassInfo]] = {}
@@ -213,12 +224,9 @@ class Index:
                 from gv import canon as _canon0
 
                 _canon0.canonicalise_idioms(tree)
-                _normalise_locals(rel, tree)
-                if os.environ.get("GV_CANON_TESTS", "1") == "1":
-                    from gv import canon as _canon
-
-                    _canon.canonicalise_tests(tree)
+                self._fresh.append((rel, tree))
         mod = ModuleInfo(relpath=rel, modname=_modname(rel), tree=tree, source=src)
+        mod.quiet = getattr(reuse, "quiet", None)
         if reuse is not None:
             mod.imports = reuse.imports
         else:
@@ -259,6 +267,19 @@ class Index:
         if os.environ.get("GV_NO_CANON") != "1":
             from gv import canon
 
+            # quiet callees of the whole analysed tree first: the local normalisation consults them
+            entries = []
+            for mod in self.modules.values():
+                if getattr(mod, "quiet", None) is None:
+                    mod.quiet = canon.quiet_collect(mod.tree)
+                entries.extend(mod.quiet)
+            canon.QUIET = self.quiet = canon.quiet_settle(entries)
+            for rel, tree in self._fresh:
+                if _reference_digest(rel) != hashlib.sha1(self.modules[rel].source.encode()).hexdigest() or rel == "utils/compatibility/openturns.py":
+                    _normalise_locals(rel, tree)
+                if os.environ.get("GV_CANON_TESTS", "1") == "1":
+                    canon.canonicalise_tests(tree)
+            self._fresh = []
             funcs, classes = canon.build_signatures(self.modules.values())
             self.signatures = (funcs, classes)
             for mod in self.modules.values():
